@@ -88,6 +88,8 @@ pub struct Uci {
     rx: Receiver<Line>,
     /// everything received so far, in arrival order
     pub log: Vec<Line>,
+    /// when each entry of `log` was taken from the reader (parallel to `log`)
+    pub stamps: Vec<Instant>,
     pub sent: Vec<String>,
 }
 
@@ -140,6 +142,7 @@ impl Uci {
             stdin,
             rx,
             log: vec![],
+            stamps: vec![],
             sent: vec![],
         })
     }
@@ -159,13 +162,17 @@ impl Uci {
         si.write_all(data).and_then(|_| si.flush()).is_ok()
     }
 
-    /// Receive lines until `pred` matches one (returned, with its index in the log) or the
-    /// timeout expires / the output closes (None).
-    pub fn wait_for(&mut self, timeout: Duration, mut pred: impl FnMut(&Line) -> bool) -> Option<usize> {
-        let deadline = Instant::now() + timeout;
+    /// Receive lines until `pred` matches one (returned, with its index in the log), the
+    /// output closes, or the process has been silent for `idle` (None). The watchdog is an
+    /// *idle* timeout: as long as lines keep arriving the engine is alive and making progress
+    /// (on low-mobility positions it reaches depths in the thousands within seconds and prints
+    /// megabytes of ever longer pv lines before the bestmove). Hard cap: 15 minutes.
+    pub fn wait_for(&mut self, idle: Duration, mut pred: impl FnMut(&Line) -> bool) -> Option<usize> {
+        let hard = Instant::now() + Duration::from_secs(900).max(idle);
+        let mut deadline = Instant::now() + idle;
         loop {
             let now = Instant::now();
-            if now >= deadline {
+            if now >= deadline || now >= hard {
                 return None;
             }
             match self.rx.recv_timeout(deadline - now) {
@@ -173,12 +180,14 @@ impl Uci {
                     let closed = matches!(l, Line::OutClosed);
                     let hit = pred(&l);
                     self.log.push(l);
+                    self.stamps.push(Instant::now());
                     if hit {
                         return Some(self.log.len() - 1);
                     }
                     if closed {
                         return None;
                     }
+                    deadline = Instant::now() + idle;
                 }
                 Err(RecvTimeoutError::Timeout) => return None,
                 Err(RecvTimeoutError::Disconnected) => return None,
@@ -249,9 +258,12 @@ impl Uci {
         }
         s.push_str("received:\n");
         for l in self.log.iter().rev().take(40).collect::<Vec<_>>().into_iter().rev() {
+            let cut = |x: &str| -> String {
+                if x.chars().count() > 240 { format!("{}… ({} chars)", x.chars().take(240).collect::<String>(), x.chars().count()) } else { x.to_string() }
+            };
             match l {
-                Line::Out(x) => s.push_str(&format!("  < {}\n", x)),
-                Line::Err(x) => s.push_str(&format!("  ! {}\n", x)),
+                Line::Out(x) => s.push_str(&format!("  < {}\n", cut(x))),
+                Line::Err(x) => s.push_str(&format!("  ! {}\n", cut(x))),
                 Line::OutClosed => s.push_str("  < [closed]\n"),
             }
         }
